@@ -48,7 +48,19 @@ def opTiled : J.Op := fun j => do
   let replace ← J.field j "replace" J.bool
   let draw ← J.field j "draw" (J.list J.nat)
   let perm ← J.field j "perm" (J.list J.nat)
+  -- without replacement the literal loop (slice assignments into a buffer of arbitrary content) is run as well;
+  -- Props/C17 `tiled_literal_loop_eq` proves it equal to the functional form
+  if !replace then
+    let lit := tiledLoopIdx a.length size.prod draw perm (List.replicate size.prod 123456789)
+    let fn := tiledIdx a.length size.prod false draw perm
+    if lit.toOption != fn.toOption then J.fail "tiledLoopIdx differs from tiledIdx" else pure ()
   ofExcept (J.ofList J.ofInt) (tiledChoice a size replace draw perm)
+
+def opTiledAddon : J.Op := fun j => do
+  let a ← J.field j "noption" J.nat
+  let n ← J.field j "nsample" J.nat
+  let tiles ← J.field j "tiles" (J.list (J.list J.nat))
+  ofExcept (J.ofList J.ofNat) (tiledAddon a n tiles)
 
 def opSpecTiled : J.Op := fun j => do
   let a ← J.field j "a" (J.list J.int)
@@ -70,6 +82,12 @@ def opSlices : J.Op := fun j => do
   pure (J.obj [("tuples", J.ofList (J.ofList (J.ofOpt J.ofNat)) (sliceTuples axis 0 shape)),
                ("keys", J.ofList (J.ofList J.ofNat) (sliceKeys shape axis))])
 
+def opSpecSlices : J.Op := fun j => do
+  let shape ← J.field j "shape" (J.list J.nat)
+  let axis ← J.field j "axis" (J.list J.nat)
+  let tuples ← J.field j "tuples" (J.list (J.list (J.opt J.nat)))
+  pure (J.obj [("ok", J.ofBool (specSlices shape axis tuples))])
+
 def opSpecAxis : J.Op := fun j => do
   let shape ← J.field j "shape" (J.list J.nat)
   -- the axes as the caller requested them (either sign); the Spec speaks about the requested slices
@@ -87,6 +105,16 @@ def opOutcross : J.Op := fun j => do
   let orders ← J.field j "orders" (J.list pairs)
   ofExcept (J.ofList J.ofInt) (outcross nrow ncol x orders)
 
+/-- the literal in-place loop on the memory of the table: `buf` = the underlying buffer in memory order,
+    `addr[q]` = offset of the entry `xconfig.flat[q]` -/
+def opOutcrossBuf : J.Op := fun j => do
+  let nrow ← J.field j "nrow" J.nat
+  let ncol ← J.field j "ncol" J.nat
+  let buf ← J.field j "buf" (J.list J.int)
+  let addr ← J.field j "addr" (J.list J.nat)
+  let orders ← J.field j "orders" (J.list pairs)
+  ofExcept (J.ofList J.ofInt) (outcrossBuf nrow ncol buf addr orders)
+
 def opSpecOutcross : J.Op := fun j => do
   let nrow ← J.field j "nrow" J.nat
   let ncol ← J.field j "ncol" J.nat
@@ -101,8 +129,8 @@ def opSpecOutcross : J.Op := fun j => do
 
 def ops : List (String × J.Op) :=
   [("c17.sus", opSus), ("c17.spec_sus", opSpecSus),
-   ("c17.tiled", opTiled), ("c17.spec_tiled", opSpecTiled),
-   ("c17.axis", opAxis), ("c17.sliceaxisix", opSlices), ("c17.spec_axis", opSpecAxis),
-   ("c17.outcross", opOutcross), ("c17.spec_outcross", opSpecOutcross)]
+   ("c17.tiled", opTiled), ("c17.spec_tiled", opSpecTiled), ("c17.tiled_addon", opTiledAddon),
+   ("c17.axis", opAxis), ("c17.sliceaxisix", opSlices), ("c17.spec_slices", opSpecSlices), ("c17.spec_axis", opSpecAxis),
+   ("c17.outcross", opOutcross), ("c17.outcross_buf", opOutcrossBuf), ("c17.spec_outcross", opSpecOutcross)]
 
 end Drv.C17
